@@ -443,6 +443,7 @@ func runExec(cfg *config) {
 		}
 		if modes["agg"] {
 			execAggQueries(d, rr, t1, t2, nullable)
+			execGroupKeyQueries(d, rr)
 		}
 		if modes["confused"] {
 			execConfusedQueries(d, rr, t1, t2)
@@ -659,6 +660,32 @@ func execAggQueries(d *xdb, r *hx.Rng, t1, t2 xtable, nullable bool) {
 	if !nullable {
 		d.query("SELECT t1.k, t2.a, avg(t1.a), count(*) FROM t1 JOIN t2 ON t1.k = t2.k WHERE t1.id > 1 GROUP BY t1.k, a", "exact", "agg")
 	}
+}
+
+// execGroupKeyQueries: grouping values chosen so that any non-injective way of combining them
+// into a group key (joining printed values with a separator, printing NULL as text) merges groups,
+// and a lone aggregate per column over NULL-bearing data.
+func execGroupKeyQueries(d *xdb, r *hx.Rng) {
+	strs := []interface{}{"", "|", "a|", "|a", "a", "a|b", "b", ";", "a;", ",", "a,", "1", "11", "<nil>", "nil", "NULL", "%v", "int64:1", "\\", " ", nil, nil}
+	ints := []interface{}{int64(1), int64(11), int64(111), int64(0), int64(-1), nil}
+	g := xtable{name: "g1", cols: []xcol{{"s1", "varchar"}, {"s2", "varchar"}, {"n", "int"}, {"v", "int"}}}
+	for i, m := 0, r.Range(8, 40); i < m; i++ {
+		g.rows = append(g.rows, []interface{}{strs[r.Intn(len(strs))], strs[r.Intn(len(strs))], ints[r.Intn(len(ints))], ints[r.Intn(len(ints))]})
+	}
+	// pairs that collide under separator-joining, always present
+	g.rows = append(g.rows, []interface{}{"a|", "b", int64(1), int64(1)}, []interface{}{"a", "|b", int64(1), int64(2)},
+		[]interface{}{nil, "x", int64(1), int64(3)}, []interface{}{"<nil>", "x", int64(1), int64(4)},
+		[]interface{}{"1", "11", int64(11), nil}, []interface{}{"11", "1", int64(1), nil})
+	d.load(g)
+	for _, gb := range [][]string{{"s1", "s2"}, {"s2", "s1"}, {"s1", "n"}, {"n", "s1"}, {"s1", "s2", "n"}, {"s1"}, {"n"}, {"n", "v"}} {
+		d.query("SELECT "+strings.Join(gb, ", ")+", count(*), count(v) FROM g1 GROUP BY "+strings.Join(gb, ", "), "exact", "agg-keys")
+	}
+	for _, c := range []string{"s1", "s2", "n", "v"} {
+		d.query("SELECT count("+c+") FROM g1", "exact", "agg-lone")
+		d.query("SELECT count("+c+") AS cnt FROM g1 WHERE n = 1", "exact", "agg-lone")
+		d.query("SELECT count(g1."+c+") FROM g1 WHERE v = 99", "exact", "agg-lone")
+	}
+	d.query("SELECT count(*) FROM g1 WHERE n = 1", "exact", "agg-lone")
 }
 
 func execConfusedQueries(d *xdb, r *hx.Rng, t1, t2 xtable) {
